@@ -643,12 +643,52 @@ class Engine(object):
     # ------------------------------------------------------------ node transfer
     def exec_expr(self, e, ts, env, ctx):
         """Execute the effects of expression e (calls, assignments) in
-        evaluation order.  Returns list of (ts, env, callvals)."""
-        rule = self.rule
+        evaluation order.  Returns list of (ts, env, callvals).  The arms of
+        ?: and the right operands of && / || are conditional: their effects
+        happen on some paths only (both outcomes are kept, unrefined).
+        Statement expressions are sequenced by the CFG and skipped here."""
         states = [(ts, env, {})]
         if e is None:
             return states
-        for n in walk_eval_order(e):
+        return self.exec_tree(e, states, ctx)
+
+    def exec_tree(self, n, states, ctx):
+        if n is None or not states:
+            return states
+        k = n.k
+        if k == 'stmtexpr':
+            return states
+        if k == 'cond' and len(n.a) == 3:
+            st = self.exec_tree(n.a[0], states, ctx)
+            sa = self.exec_tree(n.a[1], st, ctx)
+            sb = self.exec_tree(n.a[2], st, ctx)
+            return dedup(sa + sb)
+        if k == 'bin' and n.op in ('&&', '||'):
+            left = self.exec_tree(n.a[0], states, ctx)
+            if not any(x.k in ('call', 'stmtexpr') or (x.k == 'bin' and is_assign_op(x.op)) or
+                       (x.k == 'un' and x.op in ('++', '--')) for x in self.walk_no_se(n.a[1])):
+                return left
+            right = self.exec_tree(n.a[1], left, ctx)
+            return dedup(left + right)
+        for c in n.a:
+            if c is not None:
+                states = self.exec_tree(c, states, ctx)
+        return self.exec_node(n, states, ctx)
+
+    def walk_no_se(self, e):
+        stack = [e]
+        while stack:
+            x = stack.pop()
+            if x is None:
+                continue
+            yield x
+            if x.k == 'stmtexpr':
+                continue
+            stack.extend(c for c in x.a if c is not None)
+
+    def exec_node(self, n, states, ctx):
+        rule = self.rule
+        if True:
             if n.k == 'call':
                 nxt = []
                 for ts1, env1, cv in states:
